@@ -335,6 +335,108 @@ impl ProgFamily for ModuleLessFiles {
     }
 }
 
+
+/// Vocabulary: every primitive keyword in every type position (and as underlying type), aliases in the positions that
+/// are patched by arms of their own (underlying type, dictionary key), identifiers that merely resemble keywords
+/// (unescaped) and every keyword escaped, in every naming position.
+pub struct Vocabulary {
+    names: Vec<MIdent>,
+}
+const NEAR_KEYWORDS: [&str; 18] = ["result", "sequence", "dictionary", "String", "Int32", "Tag", "Stream", "Compact", "structs", "tagged", "int32x", "module_", "Module1", "Custom", "unchecked_", "idempotentx", "Bool", "enumerator"];
+impl Vocabulary {
+    pub fn new() -> Self {
+        let mut names: Vec<MIdent> = NEAR_KEYWORDS.iter().map(|n| MIdent::new(n)).collect();
+        names.extend(KEYWORDS.iter().map(|k| MIdent::esc(k)));
+        Vocabulary { names }
+    }
+    fn n_prims(&self) -> u64 {
+        (PRIMITIVES.len() * (N_TYPE_POSITIONS + 1) * 2) as u64
+    }
+    fn n_alias(&self) -> u64 {
+        12
+    }
+}
+impl ProgFamily for Vocabulary {
+    fn name(&self) -> String {
+        format!("vocabulary/all {} primitives x {} type positions (incl. underlying type) x optional; aliases (plain, of an alias, with attributes, global spelling) as underlying type and as dictionary key; {} near-keyword identifiers and all {} keywords escaped as definition, field, operation, parameter, return member, enumerator and enumerator field names; x 2 layouts", PRIMITIVES.len(), N_TYPE_POSITIONS + 1, NEAR_KEYWORDS.len(), KEYWORDS.len())
+    }
+    fn len(&self) -> u64 {
+        (self.n_prims() + self.n_alias() + self.names.len() as u64) * 2
+    }
+    fn get(&self, idx: u64) -> PCase {
+        let layout = [Layout::uniform(Sep::Space, Commas::None), Layout::uniform(Sep::Newline, Commas::Between)][(idx % 2) as usize].clone();
+        let mut k = idx / 2;
+        if k < self.n_prims() {
+            let opt = k % 2 == 1;
+            let pos = ((k / 2) % (N_TYPE_POSITIONS as u64 + 1)) as usize;
+            let p = PRIMITIVES[(k / 2 / (N_TYPE_POSITIONS as u64 + 1)) as usize];
+            let program = if pos == N_TYPE_POSITIONS {
+                // underlying type (integral primitives; others: the plain field position once more)
+                if prim_bounds(p).is_some() {
+                    let mut f = MFile::module("M");
+                    let mut d = en("E", Some(MType::prim(p)), vec![enumerator("A"), enumerator_v("B", MInt::dec(7))]);
+                    if let MDef::Enum(e) = &mut d {
+                        e.unchecked = opt;
+                    }
+                    f.defs.push(d);
+                    vec![f, lib_file()]
+                } else {
+                    type_in_position(&MType::prim(p), 0, opt)
+                }
+            } else {
+                type_in_position(&MType::prim(p), pos, opt)
+            };
+            return PCase { program, layout, label: format!("primitive {p} in position {pos}, variant {opt}"), may_warn: false };
+        }
+        k -= self.n_prims();
+        if k < self.n_alias() {
+            let mut f = MFile::module("M");
+            f.defs.push(alias("U8", MType::prim("uint8").attr(MAttr::new("cs::u"))));
+            f.defs.push(alias("U8B", MType::named("U8").attr(MAttr::with("cs::outer", vec![MArg::Str("o".into())]))));
+            f.defs.push(alias("KA", MType::prim("int32")));
+            f.defs.push(alias("KB", MType::named("Lib::HK")));
+            let under = [MType::named("U8"), MType::named("U8B"), MType::named("::M::U8"), MType::named("M::U8B")][(k % 4) as usize].clone();
+            match k / 4 {
+                0 => f.defs.push(en("E", Some(under), vec![enumerator("A"), enumerator_v("B", MInt::dec(255))])),
+                1 => {
+                    let mut d = en("F", Some(under), vec![enumerator_v("X", MInt::dec(0))]);
+                    if let MDef::Enum(e) = &mut d {
+                        e.unchecked = true;
+                    }
+                    f.defs.push(d);
+                }
+                _ => {
+                    let key = [MType::named("KA"), MType::named("KB"), MType::named("::M::KA"), MType::named("U8B")][(k % 4) as usize].clone();
+                    f.defs.push(st("D", vec![MField::new("d", MType::dict(key.clone(), MType::prim("bool"))), MField::new("e", MType::seq(MType::dict(key, MType::named("U8")).opt()))]));
+                }
+            }
+            return PCase { program: vec![f, lib_file()], layout, label: format!("alias in underlying / key position, case {k}"), may_warn: false };
+        }
+        k -= self.n_alias();
+        let name = self.names[k as usize].clone();
+        let i32t = || MType::prim("int32");
+        let named = |c: &str| {
+            let mut x = MCommon::new(c);
+            x.name = name.clone();
+            x
+        };
+        let mut f = MFile::module("M");
+        // definition + field
+        f.defs.push(MDef::Struct(MStruct { c: named(""), compact: false, fields: vec![MField { c: named(""), tag: None, ty: i32t() }, MField::new("other", MType::prim("bool"))] }));
+        // operation, parameter, return member
+        let mut o = op("x", vec![MParam { name: name.clone(), ..MParam::new("p", i32t()) }, MParam::new("q", i32t())], MRet::Tuple(vec![MParam::new("r", i32t()), MParam { name: MIdent { name: format!("{}2", name.name), escaped: false }, ..MParam::new("s", i32t()) }]));
+        o.c.name = name.clone();
+        f.defs.push(iface("IUser", vec![], vec![o]));
+        // enumerator + enumerator field
+        f.defs.push(en("EUser", None, vec![MEnumerator { c: named(""), fields: Some(vec![MField { c: named(""), tag: None, ty: i32t() }]), value: None }, enumerator("Other")]));
+        // a reference to the definition (unescaped names only: a reference is written as it is declared)
+        if !name.escaped {
+            f.defs.push(st("RefUser", vec![MField::new("u", MType::named(&name.name)), MField::new("v", MType::seq(MType::named(&format!("M::{}", name.name)).opt()))]));
+        }
+        PCase { program: vec![f, lib_file()], layout, label: format!("identifier {}{} in every naming position", if name.escaped { "\\" } else { "" }, name.name), may_warn: false }
+    }
+}
+
 pub fn program_families(tier: &str) -> Vec<Box<dyn ProgFamily>> {
     let quick = tier == "quick";
     let mut v: Vec<Box<dyn ProgFamily>> = vec![
@@ -350,6 +452,7 @@ pub fn program_families(tier: &str) -> Vec<Box<dyn ProgFamily>> {
         Box::new(WithDirectives { inner: Sequences { depth: 2, layouts: six_layouts(), full_product: false } }),
     ];
     v.push(Box::new(Sequences { depth: 3, layouts: six_layouts(), full_product: !quick }));
+    v.push(Box::new(Vocabulary::new()));
     if !quick {
         // all 40^4 sequences of four constructs, each once (layout and module scope rotate)
         v.push(Box::new(Sequences { depth: 4, layouts: six_layouts(), full_product: false }));
